@@ -1,3 +1,3 @@
 (* C02/Lemmas.v -- collects the proof files of property C02. *)
 From AK Require Export C02.Model C02.Spec C02.LemBase C02.LemNull C02.LemFirst C02.LemFollow
-  C02.LemTable C02.LemParse C02.LemReject C02.LemIdent C02.Session C02.LemSession.
+  C02.LemTable C02.LemParse C02.LemReject C02.LemIdent C02.Session C02.LemSession C02.SessionTok C02.LemTok.
